@@ -553,4 +553,19 @@ Proof.
     apply last_opt_none in L. rewrite L. cbn. lia.
 Qed.
 
+(* ---------- the persisted sequence of a run ---------- *)
+(* every committed write of a run stands to the write of that run it replaced in all the relations the token theorem proves of a
+   Store and the record it replaces (identity, version + 1, update time, lifecycle edge, finished stays finished, declared
+   transition, object clause); the first write of a run is Initiated, version 1, at a declared status *)
+Theorem persisted_sequence_facts ops : hist_ok ops ->
+  forall h1 x h2, w_hist (fst (run_ops c ops)) = h1 ++ x :: h2 ->
+  match lastrun h1 x with
+  | Some p => store_facts (ec_graph c) p x
+  | None => r_ver x = 1 /\ r_state x = RSInitiated /\ is_valid (ec_graph c) (r_status x) = true
+  end.
+Proof.
+  intros H h1 x h2 E. destruct (writes_are_announced c ops H h1 x h2 E) as (a & Hin).
+  destruct (lastrun h1 x) as [p|]; [apply (store_some_facts c ops H p x a Hin)|apply (store_new_facts c ops H x a Hin)].
+Qed.
+
 End D.
